@@ -24,17 +24,17 @@ def parseTOp (tok : String) : Option TOp :=
   | ["kd", k] => do pure (.kvDelete (← decS k))
   | ["kc", k, v, fl, c] => do pure (.kvCas (← decS k) ⟨← decS v, ← nat? fl⟩ (← nat? c))
   | ["kdc", k, c] => do pure (.kvDeleteCas (← decS k) (← nat? c))
-  | ["ns", n, a, id] => do pure (.nodeSet (← decS n) ⟨← decS id, ← decS a⟩)
+  | ["ns", n, a, id] => do pure (.nodeSet ⟨← decS n, ← decS id, ← decS a⟩)
   | ["nd", n, _id] => do pure (.nodeDelete (← decS n))            -- the delete verbs ignore the ID
-  | ["nc", n, a, id, c] => do pure (.nodeCas (← decS n) ⟨← decS id, ← decS a⟩ (← nat? c))
+  | ["nc", n, a, id, c] => do pure (.nodeCas ⟨← decS n, ← decS id, ← decS a⟩ (← nat? c))
   | ["ndc", n, _id, c] => do pure (.nodeDeleteCas (← decS n) (← nat? c))
   | ["ss", n, id, p] => do pure (.svcSet (← decS n) (← decS id) (← nat? p))
   | ["sd", n, id] => do pure (.svcDelete (← decS n) (← decS id))
   | ["sc", n, id, p, c] => do pure (.svcCas (← decS n) (← decS id) (← nat? p) (← nat? c))
   | ["sdc", n, id, c] => do pure (.svcDeleteCas (← decS n) (← decS id) (← nat? c))
-  | ["cs", n, id, sv, o] => do pure (.chkSet (← decS n) (← decS id) ⟨← decS sv, ← decS o⟩)
+  | ["cs", n, id, sv, o, st] => do pure (.chkSet (← decS n) (← decS id) ⟨← decS sv, ← decS o, ← decS st⟩)
   | ["cd", n, id] => do pure (.chkDelete (← decS n) (← decS id))
-  | ["cc", n, id, sv, o, c] => do pure (.chkCas (← decS n) (← decS id) ⟨← decS sv, ← decS o⟩ (← nat? c))
+  | ["cc", n, id, sv, o, st, c] => do pure (.chkCas (← decS n) (← decS id) ⟨← decS sv, ← decS o, ← decS st⟩ (← nat? c))
   | ["cdc", n, id, c] => do pure (.chkDeleteCas (← decS n) (← decS id) (← nat? c))
   | _ => none
 
@@ -55,12 +55,12 @@ def parseCmd : List String → Option (Nat × Cmd)
   | ["kvcas", i, k, v, fl, c] => do pure (← nat? i, .kvCas (← decS k) ⟨← decS v, ← nat? fl⟩ (← nat? c))
   | ["kvdelcas", i, k, c] => do pure (← nat? i, .kvDeleteCas (← decS k) (← nat? c))
   | ["txn", i, ops] => do pure (← nat? i, .txn (← (decList ops).mapM parseTOp))
-  | ["cfgset", i, kd, n, v] => do pure (← nat? i, .cfgSet (← decS kd, ← decS n) ⟨← decS v, ""⟩)
+  | ["cfgset", i, kd, n, v, fl] => do pure (← nat? i, .cfgSet (← decS kd, ← decS n) ⟨← decS v, "", ← decBool fl⟩)
   | ["cfgdel", i, kd, n] => do pure (← nat? i, .cfgDelete (← decS kd, ← decS n))
-  | ["cfgcas", i, kd, n, v, st, c] => do
-      pure (← nat? i, .cfgCas (← decS kd, ← decS n) ⟨← decS v, ← decS st⟩ (← nat? c))
-  | ["cfgstcas", i, kd, n, v, st, c] => do
-      pure (← nat? i, .cfgStatusCas (← decS kd, ← decS n) ⟨← decS v, ← decS st⟩ (← nat? c))
+  | ["cfgcas", i, kd, n, v, st, fl, c] => do
+      pure (← nat? i, .cfgCas (← decS kd, ← decS n) ⟨← decS v, ← decS st, ← decBool fl⟩ (← nat? c))
+  | ["cfgstcas", i, kd, n, v, st, fl, c] => do
+      pure (← nat? i, .cfgStatusCas (← decS kd, ← decS n) ⟨← decS v, ← decS st, ← decBool fl⟩ (← nat? c))
   | ["cfgdelcas", i, kd, n, c] => do pure (← nat? i, .cfgDeleteCas (← decS kd, ← decS n) (← nat? c))
   | ["caset", i, p, cl] => do pure (← nat? i, .caSet ⟨← decS p, ← decS cl⟩)
   | ["cacas", i, p, cl, c] => do pure (← nat? i, .caCas ⟨← decS p, ← decS cl⟩ (← nat? c))
@@ -78,6 +78,7 @@ def errName : Err → String
   | .casMismatch => "cas-mismatch" | .stale => "stale"
   | .missingNode => "missing-node" | .missingService => "missing-service"
   | .nodeNameConflict => "node-name-conflict"
+  | .cfgMtls => "cfg-mtls" | .cfgGatewayClash => "cfg-gateway-clash" | .cfgGraph => "cfg-graph"
   | .rootsActive => "roots-active" | .missingRootId => "missing-root-id"
   | .fgNoStatus => "fg-no-status" | .fgNoPolicy => "fg-no-policy"
   | .tokNoSecret => "tok-no-secret" | .tokNoAccessor => "tok-no-accessor"
@@ -107,12 +108,13 @@ def dumpStr (s : Cas.State) : String :=
   unwords [
     "kv=" ++ sorted (s.kvs.map fun (k, e) => s!"{encS k};{encS e.val.value};{e.val.flags};{e.create};{e.modify}"),
     "tomb=" ++ sorted (s.tombs.map fun (k, i) => s!"{encS k};{i}"),
-    "node=" ++ sorted (s.nodes.map fun (k, e) => s!"{encS k};{encS e.val.id};{encS e.val.addr};{e.create};{e.modify}"),
+    "node=" ++ sorted (s.nodes.map fun (_, e) => s!"{encS e.val.name};{encS e.val.id};{encS e.val.addr};{e.create};{e.modify}"),
     "svc=" ++ sorted (s.svcs.map fun (k, e) => s!"{encS k.1};{encS k.2};{e.val};{e.create};{e.modify}"),
     "chk=" ++ sorted (s.chks.map fun (k, e) =>
-        s!"{encS k.1};{encS k.2};{encS e.val.svcId};{encS e.val.output};{e.create};{e.modify}"),
+        s!"{encS k.1};{encS k.2};{encS e.val.svcId};{encS e.val.output};{encS e.val.status};{e.create};{e.modify}"),
+    "ksn=" ++ sorted (s.ksn.map encS),
     "cfg=" ++ sorted (s.cfgs.map fun (k, e) =>
-        s!"{encS k.1};{encS k.2};{encS e.val.val};{encS e.val.status};{e.create};{e.modify}"),
+        s!"{encS k.1};{encS k.2};{encS e.val.val};{encS e.val.status};{encBool e.val.flag};{e.create};{e.modify}"),
     "cac=" ++ cellStr (fun v => s!"{encS v.provider};{encS v.cluster}") s.caConfig,
     "car=" ++ sorted (s.roots.map fun (k, e) => s!"{encS k};{encS e.val.name};{encBool e.val.active};{e.create};{e.modify}"),
     "ap=" ++ cellStr (fun (v : Nat) => toString v) s.autopilot,
